@@ -9,11 +9,12 @@ import Driver.Hist
 import Driver.Scalar
 import Driver.Fmt
 import Driver.Ledger
+import Driver.Effects
 
 open Driver
 
 def dispatch (w : World) (ws : List String) : World × String :=
-  match (cmdIndex ws <|> cmdConstruct ws <|> cmdScalar ws <|> cmdFmt ws) with
+  match (cmdIndex ws <|> cmdConstruct ws <|> cmdScalar ws <|> cmdFmt ws <|> cmdEffects ws) with
   | some s => (w, s)
   | none =>
     match stepHist w ws with
